@@ -203,7 +203,8 @@ CLAIMS['C18'] = dict(
 
 CLAIMS['C01'] = dict(
     category='other', design_ref='DESIGN.md section 4 (C01)',
-    technique='structured effect walk of the 68 data-processing execute() bodies with term normalisation, compared with a '
+    technique='bit-vector abstract interpretation (ROBDD) of the 68 data-processing execute() bodies compared bit for bit with '
+              'pseudocode references (shifter compositional); structured effect walk with term normalisation, compared with a '
               'per-instruction role table (operand roles, carry-in, which helper result feeds which flag); frame / dominance / '
               'joint PC-destination rules against the decode model; interval widths; ALUWritePC exact table',
     text='Decides, for every operand value / flag state / shift amount (properties of all paths of loop-free bodies): which '
